@@ -124,6 +124,22 @@ func runC13(r *run) {
 				emit(caseT{"render", append(a, "-", "-", hx(obsOK(c[1])))})
 			}
 		}
+		// a default is an expression of the defining context, evaluated at every call that omits
+		// the argument; a name means the macro it is bound to at the place of the call
+		for _, c := range [][2]string{
+			{"{% macro price(a, cur=currency) %}{{ a }}{{ cur }}{% endmacro %}{% set currency = \"A\" %}{{ price(1) }}{% set currency = \"B\" %}{{ price(2) }}{{ price(3, \"C\") }}{{ price(4) }}", "1A2B3C4B"},
+			{"{% for q in \"xyz\" %}{% macro row(a, v=q) %}<{{ a }}{{ v }}>{% endmacro %}{{ row(1) }}{% endfor %}", "<1x><1y><1z>"},
+			{"{% macro m(a, n=cnt + 1) %}{{ n }}{% endmacro %}{% set cnt = 0 %}{{ m(0) }}{% set cnt = 5 %}{{ m(0) }}{% with cnt=9 %}{{ m(0) }}{% endwith %}{{ m(0) }}", "1666"},
+			{"{% macro g() %}one{% endmacro %}{{ g() }}{% macro g() %}two{% endmacro %}{{ g() }}", "onetwo"},
+			{"{{ late() }}{% macro late() %}L{% endmacro %}{{ late() }}", "L"},
+			{"{% import \"hl.tpl\" heading as greet %}{{ greet(\"a\") }}{% macro greet(t) %}local:{{ t }}{% endmacro %}{{ greet(\"b\") }}", "<h>a</h>local:b"},
+			{"{% macro greet(t) %}local:{{ t }}{% endmacro %}{{ greet(\"a\") }}{% import \"hl.tpl\" heading as greet %}{{ greet(\"b\") }}", "local:a<h>b</h>"},
+			{"{% macro a1() %}A{% endmacro %}{% macro b1() %}{{ a1() }}B{% endmacro %}{% macro a1() %}A2{% endmacro %}{{ b1() }}", "A2B"},
+		} {
+			w := &world{files: []map[string]string{{"hl.tpl": "{% macro heading(t) export %}<h>{{ t }}</h>{% endmacro %}"}}}
+			a := w.args(c[0], c13Ctx())
+			emit(caseT{"render", append(a, "-", "-", hx(obsOK(c[1])))})
+		}
 		// a context key with the name of a macro: the macro (local, imported or aliased alike) is
 		// what the name means in the template
 		for _, c := range [][2]string{
